@@ -50,3 +50,330 @@ def fileH : UInt64 := 0x8080808080808080
 @[inline] def shiftS (b : UInt64) : UInt64 := b >>> (8 : Nat).toUInt64
 
 end Wee
+
+/-! ## Compiled fast paths (`@[csimp]`)
+
+Nothing below changes a definition: each `@[csimp]` theorem proves that a model function is EQUAL to
+a faster implementation, and only the code generator uses it (the kernel, `decide` and every proof
+keep seeing the original definitions).
+
+`test` becomes a shift-and-mask on `UInt64` (no boxed `Nat`); `bitsOf` and `popcount` look each byte of
+the board up in a precomputed table; `firstOne`, `lastOne` walk the board byte by byte and skip empty
+bytes. -/
+namespace Wee.Fast
+open Wee
+
+@[inline] def testFast (b : UInt64) (n : Nat) : Bool := n < 64 && ((b >>> n.toUInt64) &&& 1) != 0
+
+theorem test_eq_testFast (b : UInt64) (n : Nat) : test b n = testFast b n := by
+  unfold test testFast
+  by_cases hn : n < 64
+  · have h1 : (n.toUInt64).toNat % 64 = n := by
+      simp [Nat.toUInt64, UInt64.toNat_ofNat']; omega
+    have h3 : ((b >>> n.toUInt64) &&& 1).toNat = (b.toNat >>> n) % 2 := by
+      rw [UInt64.toNat_and, UInt64.toNat_shiftRight, h1]; exact Nat.and_one_is_mod _
+    have h2 : (((b >>> n.toUInt64) &&& 1) != 0) = b.toNat.testBit n := by
+      rw [Nat.testBit, Nat.one_and_eq_mod_two]
+      generalize ((b >>> n.toUInt64) &&& 1) = x at *
+      rw [← h3]
+      by_cases hx : x = 0
+      · subst hx; rfl
+      · have : x.toNat ≠ 0 := fun h => hx (UInt64.toNat_inj.1 h)
+        rw [bne_iff_ne.2 hx, bne_iff_ne.2 this]
+    rw [h2]; simp [hn]
+  · have : b.toNat < 2 ^ n := Nat.lt_of_lt_of_le b.toNat_lt (Nat.pow_le_pow_right (by decide) (by omega))
+    simp [hn, Nat.testBit_lt_two_pow this]
+
+@[csimp] theorem test_eq_testFast' : @test = @testFast := by
+  funext b n; exact test_eq_testFast b n
+
+
+/-- first set bit among `i, i+1, …, i+f-1` -/
+def firstGo (b : UInt64) : Nat → Nat → Option Nat
+  | 0, _ => none
+  | f+1, i => if testFast b i then some i else firstGo b f (i + 1)
+
+theorem firstGo_eq (b : UInt64) (f i : Nat) :
+    firstGo b f i = ((List.range' i f).filter (test b)).head? := by
+  induction f generalizing i with
+  | zero => simp [firstGo]
+  | succ f ih =>
+    rw [firstGo, ih, List.range'_succ, ← test_eq_testFast]
+    by_cases h : test b i = true <;> simp [h]
+
+
+/-! ### byte-skipping versions -/
+
+/-- byte `k` of the board is empty -/
+@[inline] def byteZero (b : UInt64) (k : Nat) : Bool := ((b >>> (8 * k).toUInt64) &&& 255) == 0
+
+theorem test_of_byteZero (b : UInt64) (k : Nat) (hk : k < 8) (h : byteZero b k = true)
+    (j : Nat) (h2 : j < 8) : test b (8 * k + j) = false := by
+  unfold byteZero at h
+  have h0 : ((b >>> (8 * k).toUInt64) &&& 255) = 0 := by simpa using h
+  have h1 : ((8 * k).toUInt64).toNat % 64 = 8 * k := by
+    simp [Nat.toUInt64, UInt64.toNat_ofNat']; omega
+  have h3 : (b.toNat >>> (8 * k)) &&& 255 = 0 := by
+    have := congrArg UInt64.toNat h0
+    rw [UInt64.toNat_and, UInt64.toNat_shiftRight, h1] at this
+    exact this
+  have h4 := congrArg (fun x => x.testBit j) h3
+  simp only [Nat.testBit_and, Nat.testBit_shiftRight, Nat.zero_testBit] at h4
+  have h5 : (255 : Nat).testBit j = true := by
+    have := Nat.testBit_two_pow_sub_one 8 j
+    simpa [h2] using this
+  rw [h5, Bool.and_true] at h4
+  exact h4
+
+theorem seg_empty (b : UInt64) (k : Nat) (hk : k < 8) (h : byteZero b k = true) :
+    (List.range' (8 * k) 8).filter (test b) = [] := by
+  apply List.filter_eq_nil_iff.2
+  intro a ha
+  rw [List.mem_range'_1] at ha
+  have := test_of_byteZero b k hk h (a - 8 * k) (by omega)
+  rw [show 8 * k + (a - 8 * k) = a by omega] at this
+  simp [this]
+
+theorem range_bytes (k : Nat) : List.range (8 * (k + 1)) = List.range (8 * k) ++ List.range' (8 * k) 8 := by
+  rw [List.range_eq_range', List.range_eq_range', show 8 * (k + 1) = 8 * k + 8 by omega]
+  rw [← List.range'_append_1]; simp
+
+/-! ### `bitsOf` and `popcount` from per-byte tables -/
+/-- byte `k` of the board -/
+@[inline] def byteOf (b : UInt64) (k : Nat) : UInt64 := (b >>> (8 * k).toUInt64) &&& 255
+
+theorem byteOf_toNat (b : UInt64) (k : Nat) (hk : k < 8) : (byteOf b k).toNat = (b.toNat >>> (8 * k)) &&& 255 := by
+  have h1 : ((8 * k).toUInt64).toNat % 64 = 8 * k := by
+    simp [Nat.toUInt64, UInt64.toNat_ofNat']; omega
+  unfold byteOf
+  rw [UInt64.toNat_and, UInt64.toNat_shiftRight, h1]; rfl
+
+theorem byteOf_lt (b : UInt64) (k : Nat) (hk : k < 8) : (byteOf b k).toNat < 256 := by
+  rw [byteOf_toNat b k hk]
+  exact Nat.lt_succ_of_le Nat.and_le_right
+
+theorem test_byteOf (b : UInt64) (k j : Nat) (hk : k < 8) (hj : j < 8) :
+    test (byteOf b k) j = test b (8 * k + j) := by
+  unfold test
+  rw [byteOf_toNat b k hk, Nat.testBit_and, Nat.testBit_shiftRight]
+  have h5 : (255 : Nat).testBit j = true := by
+    have := Nat.testBit_two_pow_sub_one 8 j
+    simpa [hj] using this
+  rw [h5, Bool.and_true]
+
+/-- the set bits of byte `k`, as squares, from the bits of the byte value -/
+theorem seg_eq (b : UInt64) (k : Nat) (hk : k < 8) :
+    (List.range' (8 * k) 8).filter (test b)
+      = ((List.range' 0 8).filter (test (byteOf b k))).map (8 * k + ·) := by
+  have e : List.range' (8 * k) 8 = (List.range' 0 8).map (8 * k + ·) := by
+    rw [List.map_add_range']; simp
+  rw [e, List.filter_map]
+  congr 1
+  apply List.filter_congr
+  intro j hj
+  rw [List.mem_range'_1] at hj
+  simp only [Function.comp]
+  rw [test_byteOf b k j hk (by omega)]
+
+/-- `[k][v]`: the squares of byte `k` whose bit is set in the byte value `v` -/
+def bitsTab : Array (List Nat) :=
+  (Array.range 2048).map fun i => ((List.range' 0 8).filter (test (i % 256).toUInt64)).map (8 * (i / 256) + ·)
+
+theorem bitsTab_get (b : UInt64) (k : Nat) (hk : k < 8) :
+    bitsTab.getD (k * 256 + (byteOf b k).toNat) [] = (List.range' (8 * k) 8).filter (test b) := by
+  have hv := byteOf_lt b k hk
+  have hi : k * 256 + (byteOf b k).toNat < 2048 := by omega
+  have h1 : (k * 256 + (byteOf b k).toNat) / 256 = k := by omega
+  have h2 : (k * 256 + (byteOf b k).toNat) % 256 = (byteOf b k).toNat := by omega
+  have h3 : ((byteOf b k).toNat).toUInt64 = byteOf b k := by
+    apply UInt64.toNat_inj.1
+    simp [Nat.toUInt64]
+  rw [seg_eq b k hk, Array.getD_eq_getD_getElem?]
+  simp [bitsTab, hi, h1, h2, h3]
+
+def bitsGo (b : UInt64) : Nat → List Nat → List Nat
+  | 0, acc => acc
+  | k+1, acc =>
+    let v := byteOf b k
+    bitsGo b k (if v == 0 then acc
+      else if acc.isEmpty then bitsTab.getD (k * 256 + v.toNat) []
+      else bitsTab.getD (k * 256 + v.toNat) [] ++ acc)
+
+theorem bitsGo_eq (b : UInt64) (k : Nat) (hk : k ≤ 8) (acc : List Nat) :
+    bitsGo b k acc = (List.range (8 * k)).filter (test b) ++ acc := by
+  induction k generalizing acc with
+  | zero => simp [bitsGo]
+  | succ k ih =>
+    rw [bitsGo, ih (by omega), range_bytes, List.filter_append, List.append_assoc]
+    rw [bitsTab_get b k (by omega)]
+    by_cases h : byteOf b k = 0
+    · have hz : byteZero b k = true := by
+        show (byteOf b k == 0) = true
+        rw [h]; rfl
+      simp [h, seg_empty b k (by omega) hz]
+    · have : (byteOf b k == 0) = false := by simpa using h
+      rw [this]
+      cases acc <;> simp
+
+def bitsOfLoop (b : UInt64) : List Nat := bitsGo b 8 []
+
+theorem bitsOf_eq_bitsOfLoop : @bitsOf = @bitsOfLoop := by
+  funext b
+  unfold bitsOfLoop bitsOf
+  rw [bitsGo_eq b 8 (by omega)]; simp
+
+/-- number of set bits of a byte value -/
+def popTab : Array Nat :=
+  (Array.range 256).map fun v => ((List.range' 0 8).filter (test v.toUInt64)).length
+
+theorem popTab_get (b : UInt64) (k : Nat) (hk : k < 8) :
+    popTab.getD (byteOf b k).toNat 0 = ((List.range' (8 * k) 8).filter (test b)).length := by
+  have hv := byteOf_lt b k hk
+  have h3 : ((byteOf b k).toNat).toUInt64 = byteOf b k := by
+    apply UInt64.toNat_inj.1
+    simp [Nat.toUInt64]
+  rw [seg_eq b k hk, Array.getD_eq_getD_getElem?, List.length_map]
+  simp [popTab, hv, h3]
+
+def popGo (b : UInt64) : Nat → Nat → Nat
+  | 0, acc => acc
+  | k+1, acc => popGo b k (acc + popTab.getD (byteOf b k).toNat 0)
+
+theorem popGo_eq (b : UInt64) (k : Nat) (hk : k ≤ 8) (acc : Nat) :
+    popGo b k acc = ((List.range (8 * k)).filter (test b)).length + acc := by
+  induction k generalizing acc with
+  | zero => simp [popGo]
+  | succ k ih =>
+    rw [popGo, ih (by omega), range_bytes, List.filter_append, List.length_append, popTab_get b k (by omega)]
+    omega
+
+def popcountLoop (b : UInt64) : Nat := popGo b 8 0
+
+theorem popcount_eq_popcountLoop : @popcount = @popcountLoop := by
+  funext b
+  unfold popcountLoop popcount bitsOf
+  rw [popGo_eq b 8 (by omega)]; rfl
+
+
+/-! ### the same, unrolled over the eight bytes -/
+/-- `xs ++ acc` for a short `xs` (one cell per element, no reversal) -/
+def prepend : List Nat → List Nat → List Nat
+  | [], acc => acc
+  | x :: xs, acc => x :: prepend xs acc
+
+theorem prepend_eq (xs acc : List Nat) : prepend xs acc = xs ++ acc := by
+  induction xs with
+  | nil => rfl
+  | cons x xs ih => rw [prepend, ih]; rfl
+
+/-- one step of `bitsGo` -/
+@[inline] def bitsStep (b : UInt64) (k : Nat) (acc : List Nat) : List Nat :=
+  let v := byteOf b k
+  if v == 0 then acc
+  else if acc.isEmpty then bitsTab.getD (k * 256 + v.toNat) []
+  else prepend (bitsTab.getD (k * 256 + v.toNat) []) acc
+
+theorem bitsGo_succ (b : UInt64) (k : Nat) (acc : List Nat) : bitsGo b (k + 1) acc = bitsGo b k (bitsStep b k acc) := by
+  rw [bitsGo]; unfold bitsStep; simp only [prepend_eq]
+
+/-- `bitsGo b 8 []`, unrolled (constant shifts and table offsets) -/
+def bitsOfFast (b : UInt64) : List Nat :=
+  if b == 0 then [] else
+  bitsStep b 0 (bitsStep b 1 (bitsStep b 2 (bitsStep b 3 (bitsStep b 4 (bitsStep b 5 (bitsStep b 6 (bitsStep b 7 [])))))))
+
+theorem bitsOfFast_eq_loop (b : UInt64) : bitsOfFast b = bitsOfLoop b := by
+  unfold bitsOfFast bitsOfLoop
+  split
+  · rename_i h
+    have : b = 0 := by simpa using h
+    subst this
+    rw [bitsGo_eq 0 8 (by omega)]
+    symm; simp; intro a _; simp [test]
+  · simp only [bitsGo_succ]; rfl
+
+@[inline] def popStep (b : UInt64) (k : Nat) (acc : Nat) : Nat := acc + popTab.getD (byteOf b k).toNat 0
+
+def popcountFast (b : UInt64) : Nat :=
+  popStep b 0 (popStep b 1 (popStep b 2 (popStep b 3 (popStep b 4 (popStep b 5 (popStep b 6 (popStep b 7 0)))))))
+
+theorem popcountFast_eq_loop (b : UInt64) : popcountFast b = popcountLoop b := by
+  unfold popcountFast popcountLoop
+  simp only [popGo]; rfl
+
+@[csimp] theorem bitsOf_eq_bitsOfFast : @bitsOf = @bitsOfFast := by
+  funext b; rw [bitsOfFast_eq_loop, bitsOf_eq_bitsOfLoop]
+
+@[csimp] theorem popcount_eq_popcountFast : @popcount = @popcountFast := by
+  funext b; rw [popcountFast_eq_loop, popcount_eq_popcountLoop]
+
+/-! ### `firstOne`, `lastOne` skipping empty bytes -/
+
+def firstBytes (b : UInt64) : Nat → Nat → Option Nat
+  | 0, _ => none
+  | f+1, i =>
+    if byteZero b i then firstBytes b f (i + 1)
+    else match firstGo b 8 (8 * i) with
+      | some x => some x
+      | none => firstBytes b f (i + 1)
+
+theorem firstBytes_eq (b : UInt64) (f i : Nat) (h : i + f ≤ 8) :
+    firstBytes b f i = ((List.range' (8 * i) (8 * f)).filter (test b)).head? := by
+  induction f generalizing i with
+  | zero => simp [firstBytes]
+  | succ f ih =>
+    have e : List.range' (8 * i) (8 * (f + 1)) = List.range' (8 * i) 8 ++ List.range' (8 * (i + 1)) (8 * f) := by
+      rw [show 8 * (f + 1) = 8 + 8 * f by omega, ← List.range'_append_1]; simp [Nat.mul_add]
+    rw [firstBytes, ih (i + 1) (by omega), e, List.filter_append, List.head?_append]
+    by_cases hz : byteZero b i = true
+    · simp [hz, seg_empty b i (by omega) hz]
+    · simp only [hz]
+      rw [firstGo_eq]
+      cases ((List.range' (8 * i) 8).filter (test b)).head? <;> simp
+
+def firstOneFast (b : UInt64) : Option Nat := firstBytes b 8 0
+
+@[csimp] theorem firstOne_eq_firstOneFast : @firstOne = @firstOneFast := by
+  funext b
+  unfold firstOneFast firstOne bitsOf
+  rw [firstBytes_eq b 8 0 (by omega), List.range_eq_range']
+
+def lastSeg (b : UInt64) (lo : Nat) : Nat → Option Nat
+  | 0 => none
+  | n+1 => if testFast b (lo + n) then some (lo + n) else lastSeg b lo n
+
+theorem lastSeg_eq (b : UInt64) (lo n : Nat) :
+    lastSeg b lo n = ((List.range' lo n).filter (test b)).getLast? := by
+  induction n with
+  | zero => simp [lastSeg]
+  | succ n ih =>
+    rw [lastSeg, ih, List.range'_concat, List.filter_append, List.getLast?_append, ← test_eq_testFast]
+    by_cases h : test b (lo + n) = true <;> simp [h]
+
+def lastBytes (b : UInt64) : Nat → Option Nat
+  | 0 => none
+  | k+1 =>
+    if byteZero b k then lastBytes b k
+    else match lastSeg b (8 * k) 8 with
+      | some x => some x
+      | none => lastBytes b k
+
+theorem lastBytes_eq (b : UInt64) (k : Nat) (hk : k ≤ 8) :
+    lastBytes b k = ((List.range (8 * k)).filter (test b)).getLast? := by
+  induction k with
+  | zero => simp [lastBytes]
+  | succ k ih =>
+    rw [lastBytes, ih (by omega), range_bytes, List.filter_append, List.getLast?_append]
+    by_cases hz : byteZero b k = true
+    · simp [hz, seg_empty b k (by omega) hz]
+    · simp only [hz]
+      rw [lastSeg_eq]
+      cases ((List.range' (8 * k) 8).filter (test b)).getLast? <;> simp
+
+def lastOneFast (b : UInt64) : Option Nat := lastBytes b 8
+
+@[csimp] theorem lastOne_eq_lastOneFast : @lastOne = @lastOneFast := by
+  funext b
+  unfold lastOneFast lastOne bitsOf
+  rw [lastBytes_eq b 8 (by omega)]
+
+end Wee.Fast
